@@ -92,18 +92,19 @@ type ReqCtx struct {
 	// RootTok is the expected root token, Vars the variables as supplied.
 	RootTok Tok
 
-	mu      sync.Mutex
-	Log     []string          // R+path R-path T+path T-path RT:path IT:path
-	Fired   map[string]int    // fault kind -> times it actually fired
-	Seen    map[string]int    // resolver invocations per response path
-	Bad     []string          // parameter-accuracy violations found locally (C20)
-	FiredAt []string          // "<kind>@<path>" of every fault that fired, in order
-	Types   map[string]string // declared return type of every resolved field position
-	TypeAt  map[string]string // runtime object type of every object position that had a field resolved
-	ArgLog  map[string]string
-	Check   func(rc *ReqCtx, p *graphql.ResolveParams, path string) // optional extra check (C20)
-	Ext     *ExtRun                                                 // when set, resolver events are mirrored into the extension log
-	Cancel  func()                                                  // cancels the request context (used by the cancel_ctx fault)
+	mu       sync.Mutex
+	Log      []string          // R+path R-path T+path T-path RT:path IT:path
+	Fired    map[string]int    // fault kind -> times it actually fired
+	Seen     map[string]int    // resolver invocations per response path
+	Bad      []string          // parameter-accuracy violations found locally (C20)
+	FiredAt  []string          // "<kind>@<path>" of every fault that fired, in order
+	Types    map[string]string // declared return type of every resolved field position
+	TypeAt   map[string]string // runtime object type of every object position that had a field resolved
+	ArgLog   map[string]string
+	Check    func(rc *ReqCtx, p *graphql.ResolveParams, path string) // optional extra check (C20)
+	Ext      *ExtRun                                                 // when set, resolver events are mirrored into the extension log
+	Cancel   func()                                                  // cancels the request context (used by the cancel_ctx fault)
+	PathArrs map[string][]interface{}                                // the path arrays handed out at call time (C20: they must not change afterwards)
 }
 
 type reqKey struct{}
@@ -191,6 +192,8 @@ type World struct {
 	SubSource func(p graphql.ResolveParams) (interface{}, error)
 	// possible concrete types per abstract type name, in declaration order
 	Possible map[string][]string
+	// PanicLiteral makes the custom scalar's ParseLiteral panic on the literal "PANIC".
+	PanicLiteral bool
 	// GateScalars makes the custom scalar's ParseValue a scheduling point.
 	GateScalars bool
 	// NoCtx counts callbacks that were invoked without the request's context.
@@ -297,6 +300,10 @@ func NewWorld(id string, exts ...graphql.Extension) *World {
 		},
 		ParseLiteral: func(v ast.Value) interface{} {
 			if s, ok := v.(*ast.StringValue); ok {
+				if w.PanicLiteral && s.Value == "PANIC" {
+					// user code that fails while the library is planning lazily
+					panic(errors.New("stamp literal panic"))
+				}
 				return StampV{S: s.Value}
 			}
 			return nil
@@ -364,7 +371,7 @@ func NewWorld(id string, exts ...graphql.Extension) *World {
 	var item, leafy, deep *graphql.Object
 	mkObj("A", nodeIf, true, func() graphql.Fields {
 		fs := nodeFields()
-		fs["aOnly"] = &graphql.Field{Type: graphql.Int}
+		fs["aOnly"] = &graphql.Field{Type: graphql.Int, Args: graphql.FieldConfigArgument{"st": &graphql.ArgumentConfig{Type: w.Stamp}}}
 		fs["items"] = &graphql.Field{Type: graphql.NewList(graphql.NewNonNull(item)), Args: graphql.FieldConfigArgument{"n": &graphql.ArgumentConfig{Type: graphql.Int, DefaultValue: 2}}}
 		fs["u"] = &graphql.Field{Type: w.U, Args: graphql.FieldConfigArgument{"as": &graphql.ArgumentConfig{Type: graphql.String}}}
 		fs["leafy"] = &graphql.Field{Type: leafy}
@@ -623,6 +630,12 @@ func (w *World) resolverInner(coord string) graphql.FieldResolveFn {
 		rc.mu.Unlock()
 		if rc.Check != nil {
 			rc.Check(rc, &p, path)
+			rc.mu.Lock()
+			if rc.PathArrs == nil {
+				rc.PathArrs = map[string][]interface{}{}
+			}
+			rc.PathArrs[path] = p.Info.Path.AsArray()
+			rc.mu.Unlock()
 		}
 		w.gate(rc, "resolver:"+coord, path)
 		defer rc.logf("R-" + path)
